@@ -130,7 +130,7 @@ func (c *Ctx) rulesR6misc(only string, a *coreAnchors) {
 			return
 		}
 		n := 0
-		for _, an := range nw.AnonFuncs {
+		for _, an := range append(append([]*ssa.Function{}, nw.AnonFuncs...), c.forkedFrom(nw)...) {
 			for _, s := range c.sitesIn(an, funcKey(disp)) {
 				if _, isGo := s.(*ssa.Go); isGo {
 					continue
@@ -451,4 +451,47 @@ func (c *Ctx) rulesR6recmono() {
 	if n < 2 {
 		c.undecided(fmt.Sprintf("C17.recmono: only %d machine-record writes found in bbolt/badger writeDb (expected 2)", n))
 	}
+}
+
+// forkedFrom: the unexported functions of root's package whose only call site
+// is a go statement in root or one of its closures (a goroutine closure turned
+// into a method).
+func (c *Ctx) forkedFrom(root *ssa.Function) []*ssa.Function {
+	var out []*ssa.Function
+	for _, g := range c.Funcs {
+		if g.Parent() != nil || g.Pkg != root.Pkg || g.Object() == nil || g.Object().Exported() || len(g.Blocks) == 0 {
+			continue
+		}
+		sites, vals := c.allCallersOf(g)
+		if len(sites) != 1 || len(vals) != 0 {
+			continue
+		}
+		if _, isGo := sites[0].Instr.(*ssa.Go); isGo && topFunc(sites[0].Fn) == root {
+			out = append(out, g)
+		}
+	}
+	return out
+}
+
+// soleSiteArg: the value passed for parameter p at the only call site (go or
+// plain) of its function, or p itself.
+func (c *Ctx) soleSiteArg(p *ssa.Parameter) ssa.Value {
+	g := p.Parent()
+	if g == nil || g.Parent() != nil {
+		return p
+	}
+	sites, vals := c.allCallersOf(g)
+	if len(sites) != 1 || len(vals) != 0 {
+		return p
+	}
+	ci, ok := sites[0].Instr.(ssa.CallInstruction)
+	if !ok || len(ci.Common().Args) != len(g.Params) {
+		return p
+	}
+	for i, q := range g.Params {
+		if q == p {
+			return ci.Common().Args[i]
+		}
+	}
+	return p
 }
